@@ -486,6 +486,45 @@ def run(ctx, res):
                                      "assigns other UTC offsets" % what, [name, provider], observed=[r1, r2, same_ser, same_obs])
         finally:
             tzp.use_default()
+    # ---- two trees whose custom zones carry the same TZID but other rules (calendars from two sources): each copy keeps the
+    #      offsets of its own original, also while copies of the other tree are alive
+    VTZ = ("BEGIN:VTIMEZONE\r\nTZID:%s\r\nBEGIN:STANDARD\r\nDTSTART:19701025T030000\r\nRRULE:FREQ=YEARLY;BYDAY=-1SU;BYMONTH=10\r\n"
+           "TZOFFSETFROM:%s\r\nTZOFFSETTO:%s\r\nTZNAME:STD\r\nEND:STANDARD\r\nBEGIN:DAYLIGHT\r\nDTSTART:19700329T020000\r\n"
+           "RRULE:FREQ=YEARLY;BYDAY=-1SU;BYMONTH=3\r\nTZOFFSETFROM:%s\r\nTZOFFSETTO:%s\r\nTZNAME:DST\r\nEND:DAYLIGHT\r\nEND:VTIMEZONE\r\n")
+    for provider in ("zoneinfo",):
+        tzp.use(provider)
+        try:
+            for tzid in ("Customized Time Zone", "Verif-Shared/C20"):
+                trees = []
+                for std, dst in (("+0100", "+0200"), ("-0500", "-0400"), ("+0530", "+0630")):
+                    zone = icalendar.Timezone.from_ical(VTZ % (tzid, dst, std, std, dst)).to_tz(lookup_tzid=False)
+                    cal = icalendar.Calendar()
+                    ev = icalendar.Event()
+                    ev.add("uid", "u" + std)
+                    ev.add("dtstart", datetime(2024, 7, 1, 9, 0, tzinfo=zone))
+                    ev.add("dtend", datetime(2024, 12, 1, 9, 0, tzinfo=zone))
+                    ev.add("rdate", [datetime(2024, 8, 1, 9, 0, tzinfo=zone), datetime(2024, 11, 20, 9, 0, tzinfo=zone)])
+                    cal.add_component(ev)
+                    trees.append(cal)
+                kept = []
+                for what, mk in (("deepcopy", copy.deepcopy), ("pickle", lambda x: pickle.loads(pickle.dumps(x)))):
+                    for i, c in enumerate(trees):
+                        res.evaluations += 1
+                        try:
+                            u = mk(c)
+                        except Exception as e:  # noqa: BLE001
+                            res.fail("C20 %s of a tree with a custom zone raised %s" % (what, type(e).__name__), [tzid, i])
+                            continue
+                        kept.append(u)
+                        r1, r2 = safe_eq(c, u), safe_eq(u, c)
+                        same_obs = C09.obs_with_offsets([u]) == C09.obs_with_offsets([c])
+                        if not (r1 == 1 and r2 == 1 and same_obs and T.impl_ser(u) == T.impl_ser(c)):
+                            res.fail("C20: %s of a tree whose custom zone shares its TZID with another tree's zone is not equal "
+                                     "to its original or assigns other UTC offsets" % what, [tzid, i],
+                                     observed=[r1, r2, same_obs, C09.obs_with_offsets([u])[0][2]],
+                                     expected=[1, 1, True, C09.obs_with_offsets([c])[0][2]])
+        finally:
+            tzp.use_default()
     outs = M.batch(reqs) if M else None
     if outs is not None:
         for (kind, inp, impl), m in zip(post, outs):
